@@ -146,7 +146,16 @@ func findSelectorExprViolation(
 // or the type name itself if it is not an alias of a declared type
 func resolveAlias(typeName *types.TypeName) *types.TypeName {
 	if typeName.IsAlias() {
-		if named, ok := types.Unalias(typeName.Type()).(*types.Named); ok && named.Obj().Pkg() != nil {
+		// an alias of a pointer type (type P = *T) is a use of T just as *T is
+		t := types.Unalias(typeName.Type())
+		for {
+			ptr, ok := t.(*types.Pointer)
+			if !ok {
+				break
+			}
+			t = types.Unalias(ptr.Elem())
+		}
+		if named, ok := t.(*types.Named); ok && named.Obj().Pkg() != nil {
 			return named.Obj()
 		}
 	}
